@@ -91,6 +91,19 @@ class Pool:
             self.blobs[c.public_data] = (slot, 'cert')
         return c
 
+    def warm(self):
+        """Generate everything AuthClient.tla can name (before worker
+        processes are forked, so that they all share the same keys)."""
+        for slot in ('a1', 'a2', 'a3', 'l1', 'l2', 'l3', 'zz'):
+            self.key(slot, 'ed')
+        self.key('l2', 'ec')
+        for slot in ('a1', 'l1'):
+            self.key(slot, 'rsa')
+        for (slot, alg) in list(self._keys):
+            for ok in (True, False):
+                self.cert(slot, alg, ok)
+        return self
+
     def public_key(self, blob):
         """SSHKey able to verify a signature for a key or certificate blob"""
         slot, form = self.blobs[blob]
@@ -770,6 +783,12 @@ def run_case(cfg, backend):
             'client_log': log,
             'agent_signs': sum(a.signs for a in agents),
             'agent_refused': sum(a.refused for a in agents)}
+
+
+def replay_task(task):
+    """(cfg, [backend, ...]) -> [observation, ...]; runs in a worker process"""
+    cfg, backends = task
+    return [run_case(cfg, b) for b in backends]
 
 
 # ---------------------------------------------------------------------------
